@@ -930,7 +930,34 @@ class Interp:
                     parts.append(x)
             return SStr(parts)
         if isinstance(e, ast.JoinedStr):
-            return 'text'
+            # decided plain values: CPython's own formatting; anything else (an object in a message) gives the placeholder for
+            # message texts, whose content no rule looks at
+            out_ = []
+            for v in e.values:
+                if isinstance(v, ast.Constant):
+                    out_.append(v.value)
+                    continue
+                x = self.ev(v.value, env, cls)
+                if isinstance(x, Key):
+                    x = x.spelling
+                if x is not None and not isinstance(x, (str, int, bytes, float)):
+                    return 'text'
+                spec_ = ''
+                if v.format_spec is not None:
+                    spec_ = self.ev(v.format_spec, env, cls)
+                    if not isinstance(spec_, str) or spec_ == 'text':
+                        return 'text'
+                if v.conversion == ord('r'):
+                    x = repr(x)
+                elif v.conversion == ord('s'):
+                    x = str(x)
+                elif v.conversion == ord('a'):
+                    x = ascii(x)
+                try:
+                    out_.append(format(x, spec_))
+                except (ValueError, TypeError):
+                    raise Raised('ValueError', h.version, e.lineno)
+            return ''.join(out_)
         raise AnalysisError('heap model: expression %s' % norm(e)[:60])
 
     def ev_call(self, e, env, cls):
@@ -2104,10 +2131,21 @@ class Interp:
                         raise AnalysisError('heap model: with ... as %s' % norm(item.optional_vars))
                     env[item.optional_vars.id] = v_
             try:
-                return self.run(st.body, env, cls)
-            finally:
+                r_ = self.run(st.body, env, cls)
+            except Raised as x_:
+                # the managers leave innermost first; one whose __exit__ answers with a true value swallows the exception (the
+                # outer ones then see a normal exit)
+                pending = x_
                 for v_, ex_ in reversed(entered):
-                    self.call(Closure(ex_.node, {}, v_, ex_.cls), [None, None, None])
+                    res_ = self.call(Closure(ex_.node, {}, v_, ex_.cls), [('class', pending.exc), None, None] if pending is not None else [None, None, None])
+                    if pending is not None and self.truth(res_):
+                        pending = None
+                if pending is not None:
+                    raise
+                return None
+            for v_, ex_ in reversed(entered):
+                self.call(Closure(ex_.node, {}, v_, ex_.cls), [None, None, None])
+            return r_
         if isinstance(st, ast.Assert):
             if not self.truth(self.ev(st.test, env, cls)):
                 h.failed_asserts.append((st.lineno, norm(st.test)))
